@@ -27,7 +27,7 @@ ASSUMPTIONS = [
     "find_single_node_by_path follows the first child of each name (as documented), find_all_nodes_by_path all of them",
     "replace_child is driven with delete_old=False in the exhaustive part and with both settings in the random histories (the default deletes the old subtree from the registry, which is C14's subject; the ordered-tree invariants must hold regardless)",
 ]
-REQUIRED = ["vocabulary_probes", "wide_parent_steps", "deep_chain_nodes", "steps", "failing_edits", "edge_shifts_positional", "edge_shifts_samename", "query_evaluations", "states_expanded"]
+REQUIRED = ["sibling_pair_steps", "accumulator_queries", "vocabulary_probes", "wide_parent_steps", "deep_chain_nodes", "steps", "failing_edits", "edge_shifts_positional", "edge_shifts_samename", "query_evaluations", "states_expanded"]
 EXHAUSTIVE = {"quick": False, "thorough": False}
 
 INDEXES = (None, -1, 0, 1, 2, 9)
@@ -186,6 +186,18 @@ def check_queries(ctx, nodes, label, f, names, paths, wit, which=None):
                 ctx.violation("query-differs:find_all_descendants", f"find_all_descendants({name!r}) on node {i}: got {labs(acc)}, "
                                                                     f"expected {f.find_all_descendants(i, name)}", wit())
                 return
+            # the caller's list is an accumulator (creators, then providers, then contacts collected into one list): what it already
+            # holds stays, in place, and the matches follow it
+            held = [n, "verif-held"]
+            acc2 = list(held)
+            n.find_all_descendants(name, acc2)
+            n.find_all_descendants(name, acc2)
+            want = f.find_all_descendants(i, name)
+            if acc2[:2] != held or labs(acc2[2:]) != want + want:
+                ctx.violation("query-differs:find_all_descendants|accumulator", f"find_all_descendants({name!r}) on node {i}, twice into a list that held two "
+                              f"entries: the list now holds {len(acc2)} entries, expected the 2 held ones followed by {want + want}", wit())
+                return
+            ctx.count("accumulator_queries")
             ctx.count("query_evaluations", 4)
         for path in paths:
             # (a path is a sequence of names: given as a list or as a tuple - a module-level constant, say)
@@ -528,6 +540,45 @@ def vocabulary_probe(ctx):
         emlkit.discard(*nodes)
 
 
+def sibling_pair_probe(ctx):
+    """Below every element of the vocabulary, every pair of child names its rule declares (allow/deny below access, keyword/keywordThesaurus
+    below keywordSet ...), interleaved: shifting among same-named siblings and positionally, both directions, every child - names are names."""
+    from vlib.emlkit import mrule
+    for parent, rn in mrule.node_mappings.items():
+        try:
+            kids = [x for x in emlkit.spec_of(rn).names]
+        except Exception:
+            continue
+        for a in range(len(kids)):
+            for b in range(a + 1, len(kids)):
+                c1, c2 = kids[a], kids[b]
+                names = [parent, c1, c2, c1, c2, c2, c1]
+                nodes, label = fresh_nodes(names)
+                f = Forest(names)
+                history = []
+                for i in range(1, len(names)):
+                    op = ("add", 0, i, None)
+                    apply_real(nodes, op)
+                    apply_model(f, op)
+                    history.append(op)
+                ok = True
+                for c in (1, 2, 6, 5, 3):
+                    for right in (True, False, False, True, True):
+                        for sib in (True, False) if c in (2, 6) else (True,):
+                            op = ("shift", 0, c, right, sib)
+                            history.append(op)
+                            ctx.count("sibling_pair_steps")
+                            ok = ok and step(ctx, nodes, label, f, op, [c1, c2], [(c1,)],
+                                             lambda: {"names": names, "history": [list(o) for o in history[:-1]], "op": list(history[-1])}, [0])
+                            if not ok:
+                                break
+                        if not ok:
+                            break
+                    if not ok:
+                        break
+                emlkit.discard(*nodes)
+
+
 def treegen_foreign():
     from vlib import treegen
     return [x for x in treegen.FOREIGN_NAMES if x]
@@ -575,6 +626,7 @@ def run(ctx, params):
     if params["random"]:
         deep_chain(ctx, 140 if ctx.tier == "quick" else 400)
         ctx.case(vocabulary_probe, ctx, seconds=300.0)
+        ctx.case(sibling_pair_probe, ctx, seconds=600.0)
         for width in (300, 259, 64):
             ctx.case(wide_parent_probe, ctx, width, seconds=300.0)
     for h in range(params["random"]):
